@@ -17,6 +17,24 @@ functions, only in the Dask run, so that tasks finish out of submission order):
               (the documented usage: tasks overlap, gather is entered one at a time)
   concurrent  the producer does not await: every emit is issued at once
 
+Fault cases (model-free oracle only): a task fails on the cluster for some inputs
+(`"fail": {"mod": m, "rem": r}` on a map/starmap/zip kind: the catalogue function
+raises TaskFailed when the sum of its arguments is r mod m) and/or the consumer
+downstream of gather() rejects some results (`"reject": {"mod", "rem"}`: the sink
+raises Rejected).  Locally an exception only affects the element that caused it:
+the emitter gets the exception, later elements flow normally.  The Dask-backed
+pipeline must give every emit the same outcome (ok / exception type), deliver the
+same results in the same order, fire the same counters — and never the counter
+of an element whose emit failed.  Every wait in a fault case is bounded by
+STUCK_WAIT: an emit of the Dask pipeline that does not come back although the
+local pipeline finished is the failure `dask:stuck-after-downstream-failure`
+(a genuine hang, not a harness timeout).  Fault segments are linear from the
+first failing task on (map/starmap/zip only): a failed task's future that enters
+a stateful node (accumulate state, window, partition, zip buffer, union sibling)
+is seen by that node on Dask and never locally — errors surface at gather, not at
+the node that failed; the accumulate instance of this (state poisoned for ever)
+is kept as one corpus case under its own signature `SIG_ACC_POISON`.
+
 For each case the same pipeline is built locally and as scatter() … gather();
 both are driven to quiescence (emits returned, buffer queues empty, no
 scatter/gather coroutine in flight — conditions, not sleeps; a timeout is a
@@ -43,7 +61,29 @@ import warnings
 from .. import common
 
 TIMEOUT = 60.0          # per pipeline, generous: a timeout is reported as harness error
+STUCK_WAIT = 10.0       # fault cases: bounded wait for an emit of the Dask pipeline; exceeding it is the failure
 SIG_REORDER = "gather:reorder:concurrent-updates"
+SIG_STUCK = "dask:stuck-after-downstream-failure"
+SIG_ACC_POISON = "dask:accumulate:failed-task-poisons-state"
+
+
+class TaskFailed(ArithmeticError):
+    """raised by a catalogue function on the inputs its `fail` spec selects"""
+
+
+class Rejected(ValueError):
+    """raised by the consumer downstream of gather on the results the `reject` spec selects"""
+
+
+def selected(spec, total):
+    return bool(spec) and total % spec["mod"] == spec["rem"]
+
+
+def is_fault(case):
+    return bool(case.get("reject")) or any(k.get("fail") for k in case["seg"])
+
+
+_stuck_seen = []        # once a hang has been observed (STUCK_WAIT), later fault cases wait less
 
 # ------------------------------------------------------------------ catalogue (twins of Drivers/Dask.lean)
 
@@ -83,31 +123,35 @@ _ticket = itertools.count()
 FINISHED = []           # tickets (taken at task start) in order of task completion
 
 
-def _run(table, fn, salt, delays, args):
+def _run(table, fn, salt, delays, fail, args):
     t = next(_ticket)
+    total = sum(sumv(a) for a in args)
     if delays:
-        d = delays[(salt + sum(sumv(a) for a in args)) % len(delays)]
+        d = delays[(salt + total) % len(delays)]
         if d:
             time.sleep(d / 1000.0)
+    if fail and total % fail[0] == fail[1]:
+        FINISHED.append(t)
+        raise TaskFailed("%s%r: argument sum %d is %d mod %d" % (fn, args, total, fail[1], fail[0]))
     r = table[fn](*args)
     FINISHED.append(t)
     return r
 
 
-def f1(x, fn=None, salt=0, delays=()):
-    return _run(F1, fn, salt, delays, (x,))
+def f1(x, fn=None, salt=0, delays=(), fail=None):
+    return _run(F1, fn, salt, delays, fail, (x,))
 
 
-def fs(*xs, fn=None, salt=0, delays=()):
-    return _run(FS, fn, salt, delays, xs)
+def fs(*xs, fn=None, salt=0, delays=(), fail=None):
+    return _run(FS, fn, salt, delays, fail, xs)
 
 
-def f2(acc, x, fn=None, salt=0, delays=()):
-    return _run(F2, fn, salt, delays, (acc, x))
+def f2(acc, x, fn=None, salt=0, delays=(), fail=None):
+    return _run(F2, fn, salt, delays, fail, (acc, x))
 
 
-def frs(acc, x, fn=None, salt=0, delays=()):
-    return _run(FRS, fn, salt, delays, (acc, x))
+def frs(acc, x, fn=None, salt=0, delays=(), fail=None):
+    return _run(FRS, fn, salt, delays, fail, (acc, x))
 
 
 def uncanon(j):
@@ -146,9 +190,16 @@ def build(case, dask):
             return fut
         node.update = update
 
+    reject = case.get("reject")
+    p.rejected = []
+
     class Rec(Stream):
         def update(self, x, who=None, metadata=None):
-            p.log.append((x, [m["ref"].idx for m in (metadata or []) if "ref" in m]))
+            refs = [m["ref"].idx for m in (metadata or []) if "ref" in m]
+            if selected(reject, sumv(x)):
+                p.rejected.append((x, refs))
+                raise Rejected("result %r rejected by the consumer" % (x,))
+            p.log.append((x, refs))
 
     p.src = Stream(asynchronous=True)
     up = p.src
@@ -158,6 +209,8 @@ def build(case, dask):
     delays = tuple(case["delays"]) if dask else ()
     for i, k in enumerate(case["seg"]):
         kw = dict(fn=k.get("f"), salt=case["salt"] + 7 * i, delays=delays)
+        if k.get("fail"):
+            kw["fail"] = (k["fail"]["mod"], k["fail"]["rem"])
         kind = k["k"]
         if kind == "map":
             up = up.map(f1, **kw)
@@ -224,18 +277,55 @@ async def drive(case, dask):
         except asyncio.TimeoutError:
             raise common.HarnessError("timeout (%ss) waiting for %s; case %r" % (TIMEOUT, what, case))
 
-    pending = []
-    for x, rc in zip(case["xs"], rcs):
-        r = p.src.emit(x, metadata=[{"ref": rc}])
-        if case["mode"] == "concurrent":
-            pending.append(r)
-        else:
-            await within(r, "emit(%r)" % (x,))
-    if pending:
-        await within(asyncio.gather(*pending), "the un-awaited emits")
+    fault = is_fault(case)
+    outcomes = []
+    stuck = False
+
+    async def outcome(aw, what):
+        """ok / exception type of one emit; in a fault case the wait is bounded and 'stuck' is an outcome"""
+        try:
+            if fault:
+                await asyncio.wait_for(aw, 3.0 if _stuck_seen else STUCK_WAIT)
+            else:
+                await within(aw, what)
+            return "ok"
+        except asyncio.TimeoutError:
+            return "stuck"
+        except common.HarnessError:
+            raise
+        except (TaskFailed, Rejected) as e:
+            if not fault:
+                raise
+            return type(e).__name__
+
+    def emit(x, rc):
+        """the awaitable of one emit, or the outcome when emit itself raised (local synchronous chain)"""
+        try:
+            return p.src.emit(x, metadata=[{"ref": rc}]), None
+        except (TaskFailed, Rejected) as e:
+            if not fault:
+                raise
+            return None, type(e).__name__
+
+    if case["mode"] == "concurrent":
+        started = [emit(x, rc) for x, rc in zip(case["xs"], rcs)]
+        waits = [outcome(r, "the un-awaited emits") if o is None else None for r, o in started]
+        got = await asyncio.gather(*[w for w in waits if w is not None])
+        got = iter(got)
+        outcomes = [o if o is not None else next(got) for _, o in started]
+        stuck = "stuck" in outcomes
+    else:
+        for x, rc in zip(case["xs"], rcs):
+            r, o = emit(x, rc)
+            if o is None:
+                o = await outcome(r, "emit(%r)" % (x,))
+            outcomes.append(o)
+            if o == "stuck":
+                stuck = True
+                break               # nothing later can get past a pipeline that is stuck
     # quiescence: nothing queued, nothing in flight, for several consecutive bursts of loop turns
     quiet = 0
-    while quiet < 5:
+    while quiet < 5 and not stuck:
         for _ in range(10):
             await asyncio.sleep(0)
         busy = (any(b.queue.qsize() for b in p.buffers) or p.inflight["scatter"] or p.inflight["gather"])
@@ -244,6 +334,8 @@ async def drive(case, dask):
             if time.monotonic() > deadline:
                 raise common.HarnessError("timeout (%ss) waiting for quiescence; case %r" % (TIMEOUT, case))
             await asyncio.sleep(0.001)
+    if stuck and not _stuck_seen:
+        _stuck_seen.append(True)
     fin = list(FINISHED)
     return {
         "out": [common.canon(v) for v, _ in log],
@@ -257,6 +349,9 @@ async def drive(case, dask):
         "scatter_max": p.maxflight["scatter"],
         "tasks": len(fin),
         "tasks_out_of_order": fin != sorted(fin),
+        "outcomes": outcomes,
+        "stuck": stuck,
+        "rejected": [common.canon(v) for v, _ in p.rejected],
     }
 
 
@@ -265,7 +360,7 @@ async def start_client():
     with warnings.catch_warnings():
         warnings.simplefilter("ignore")
         return await Client(processes=False, asynchronous=True, dashboard_address=None, n_workers=1,
-                            threads_per_worker=4, silence_logs=logging.ERROR)
+                            threads_per_worker=4, silence_logs=logging.CRITICAL)
 
 
 def run_cases(cases):
@@ -283,7 +378,8 @@ def run_cases(cases):
             with warnings.catch_warnings():
                 warnings.simplefilter("ignore")
                 await client.close()
-    logging.getLogger("distributed").setLevel(logging.ERROR)
+    logging.getLogger("distributed").setLevel(logging.CRITICAL)     # failed tasks are part of the fault cases
+    logging.getLogger("streamz").setLevel(logging.CRITICAL)         # local map logs the exception it re-raises
     return asyncio.run(main())
 
 
@@ -340,6 +436,36 @@ def gen_case(rng, mode):
             "delays": [rng.choice([0, 0, 1, 2, 3, 5, 8]) for _ in range(rng.choice([3, 4, 5]))]}
 
 
+def gen_fault_case(rng, mode):
+    """Fault case: any non-failing prefix without buffer/union/window, then only map/starmap/zip (linear, stateless)
+    from the first failing task on; and/or a consumer that rejects some results."""
+    while True:
+        pre = [k for k in gen_seg(rng, rng.choice([0, 1, 1, 2]))]
+        if not any(k["k"] in ("buffer", "union_map", "sliding_window") for k in pre):
+            break
+    tup = bool(pre) and pre[-1]["k"] in ("zip_map", "partition") or \
+        bool(pre) and pre[-1]["k"] == "map" and pre[-1]["f"] == "pair" or \
+        bool(pre) and pre[-1]["k"] == "starmap" and pre[-1]["f"] == "rev*"
+    seg = list(pre)
+    task_fault = rng.random() < 0.75
+    for i in range(rng.choice([1, 1, 2, 3]) if task_fault else rng.choice([0, 1])):
+        kind = rng.choice(["map", "map", "zip_map", "starmap"])
+        if kind == "starmap" and not tup:
+            kind = "map"
+        k = {"k": kind, "f": rng.choice(sorted(FS) if kind == "starmap" else ["inc", "dbl", "neg", "sum", "pair"])}
+        if task_fault and (i == 0 or rng.random() < 0.3):
+            m = rng.choice([2, 3, 3, 4])
+            k["fail"] = {"mod": m, "rem": rng.randrange(m)}
+        tup = kind == "zip_map" or k["f"] in ("pair", "rev*") or (tup and k["f"] in ("inc", "dbl", "neg"))
+        seg.append(k)
+    case = {"mode": mode, "seg": seg, "xs": [rng.randint(-3, 9) for _ in range(rng.choice([3, 4, 5, 6, 8, 10]))],
+            "salt": rng.randrange(50), "delays": [rng.choice([0, 0, 1, 2, 3, 5]) for _ in range(rng.choice([3, 4, 5]))]}
+    if not task_fault or rng.random() < 0.4:
+        m = rng.choice([2, 3, 3, 4])
+        case["reject"] = {"mod": m, "rem": rng.randrange(m)}
+    return case
+
+
 CORPUS = [
     # documented usage: buffer before gather, first task much slower than the following ones
     {"mode": "buffer", "seg": [{"k": "map", "f": "inc"}, {"k": "buffer", "n": 8}], "xs": [0, 1, 2, 3, 4, 5],
@@ -366,6 +492,27 @@ CORPUS = [
 ]
 
 
+FAULT_CORPUS = [
+    # the consumer downstream of gather rejects the result 30; the task fails for the input 2 (demo of the seeded change)
+    {"mode": "await", "seg": [{"k": "map", "f": "dbl", "fail": {"mod": 7, "rem": 2}}, {"k": "map", "f": "inc"}],
+     "xs": [1, 2, 3, 14, 5, 6], "salt": 0, "delays": [2, 0], "reject": {"mod": 100, "rem": 29}},
+    # only the consumer fails, on the first and on a middle result; later elements must still arrive
+    {"mode": "await", "seg": [{"k": "map", "f": "inc"}], "xs": [0, 1, 2, 3, 4, 5], "salt": 1, "delays": [1],
+     "reject": {"mod": 3, "rem": 1}},
+    {"mode": "concurrent", "seg": [{"k": "map", "f": "inc"}], "xs": [0, 1, 2, 3, 4, 5], "salt": 1, "delays": [3, 0],
+     "reject": {"mod": 3, "rem": 1}},
+    # a task fails behind partition (the whole partition is rejected, the next one flows) and inside a zip side branch
+    {"mode": "await", "seg": [{"k": "partition", "n": 2}, {"k": "map", "f": "sum", "fail": {"mod": 4, "rem": 3}}],
+     "xs": [1, 2, 3, 4, 5, 6, 7, 8], "salt": 2, "delays": [0, 2]},
+    {"mode": "concurrent", "seg": [{"k": "accumulate", "f": "add", "start": 0},
+                                   {"k": "zip_map", "f": "neg", "fail": {"mod": 3, "rem": 0}}, {"k": "starmap", "f": "rev*"}],
+     "xs": [1, 1, 1, 2, 2, 5], "salt": 3, "delays": [4, 0, 1], "reject": {"mod": 5, "rem": 0}},
+    # accumulate whose own task fails: locally the state stays the last good one (known divergence, own signature)
+    {"mode": "await", "seg": [{"k": "accumulate", "f": "add", "start": 0, "fail": {"mod": 5, "rem": 3}}],
+     "xs": [1, 2, 4, 1, 1], "salt": 0, "delays": [0]},
+]
+
+
 # ------------------------------------------------------------------ checking
 
 def model_lines(case):
@@ -387,7 +534,58 @@ def key(x):
     return common.json.dumps(x, sort_keys=True)
 
 
+def check_fault_case(ctx, case, loc, dsk):
+    """Model-free oracle for a case with failing tasks / a rejecting consumer."""
+    n = len(case["xs"])
+    ctx.count("mode:" + case["mode"] + "+fault")
+    if case.get("reject"):
+        ctx.count("fault:consumer-rejects")
+    if any(k.get("fail") for k in case["seg"]):
+        ctx.count("fault:task-fails")
+    if loc["stuck"]:
+        raise common.HarnessError("the local pipeline did not finish within %ss; case %r" % (STUCK_WAIT, case))
+    failed_l = [o != "ok" for o in loc["outcomes"]]
+    ctx.case(case, nontrivial=any(failed_l) and any(not f for i, f in enumerate(failed_l) if any(failed_l[:i])))
+    if "TaskFailed" in loc["outcomes"]:
+        ctx.count("fault:emit-got-task-error")
+    if "Rejected" in loc["outcomes"]:
+        ctx.count("fault:emit-got-consumer-error")
+    if dsk["stuck"]:
+        k = len(dsk["outcomes"]) - 1 if case["mode"] != "concurrent" else dsk["outcomes"].index("stuck")
+        if not any(failed_l):
+            raise common.HarnessError("Dask pipeline did not come back within %ss with no failure involved; case %r" % (STUCK_WAIT, case))
+        ctx.failure(SIG_STUCK, "after an element failed downstream of gather()/on the cluster the Dask-backed pipeline stopped: the emit "
+                    "of input #%d never came back (bounded wait %ss); outcomes %r, the local pipeline finished with %r"
+                    % (k, STUCK_WAIT, dsk["outcomes"], loc["outcomes"]), case, expected=loc["outcomes"], observed=dsk["outcomes"],
+                    oracle="an exception only affects the element that caused it; later emits complete as locally")
+        return
+    poisoned = any(k["k"].startswith("accumulate") and k.get("fail") for k in case["seg"])
+    if dsk["outcomes"] != loc["outcomes"]:
+        sig = SIG_ACC_POISON if poisoned else "dask:failure:outcomes-differ"
+        ctx.failure(sig, "emit outcomes differ: Dask-backed pipeline %r, local pipeline %r%s" % (
+            dsk["outcomes"], loc["outcomes"],
+            " (Dask accumulate keeps the errored future as its state)" if poisoned else ""), case,
+            expected=loc["outcomes"], observed=dsk["outcomes"], oracle="every emit has the same outcome as locally")
+    elif dsk["out"] != loc["out"] or dsk["md"] != loc["md"] or dsk["rejected"] != loc["rejected"]:
+        ctx.failure("dask:failure:results-differ", "delivered %r (rejected %r), locally %r (rejected %r)"
+                    % (dsk["out"], dsk["rejected"], loc["out"], loc["rejected"]), case,
+                    expected=loc["out"], observed=dsk["out"], oracle="same results delivered / rejected, same order")
+    elif any(dsk["fired"][i] for i in range(n) if dsk["outcomes"][i] != "ok"):
+        ctx.failure("dask:failure:counter-fired", "the done-callback of an element whose emit failed fired: fired %r, outcomes %r"
+                    % (dsk["fired"], dsk["outcomes"]), case, oracle="counters of failed elements not fired")
+    elif (dsk["fired"] != loc["fired"] or dsk["zeros"] != loc["zeros"]
+          or [c == 0 for c in dsk["count"]] != [c == 0 for c in loc["count"]]):
+        ctx.failure("dask:failure:counters", "counters fired %r / reached zero %r / final %r, locally %r / %r / %r"
+                    % (dsk["fired"], dsk["zeros"], dsk["count"], loc["fired"], loc["zeros"], loc["count"]), case,
+                    expected=loc["fired"], observed=dsk["fired"], oracle="the same counters fire as locally")
+    elif any(dsk["late"][i] and not loc["late"][i] for i in range(n)):
+        ctx.failure("refcount:early-release", "results carrying a ref were delivered after its counter had reached zero "
+                    "(sink positions per input: %r)" % (dsk["late"],), case, oracle="no release before the element is done")
+
+
 def check_case(ctx, case, answers, loc, dsk):
+    if is_fault(case):
+        return check_fault_case(ctx, case, loc, dsk)
     n = len(case["xs"])
     ctx.count("mode:" + case["mode"])
     for k in case["seg"]:
@@ -481,6 +679,9 @@ def run(ctx):
         "zip/union occur with a side branch through one map from the same upstream (lock-step); zip's maxsize back-pressure is not reached",
         "user functions are pure and total on the values they receive (ints and nested tuples)",
         "real asyncio loop and real worker threads: completion orders are sampled, not enumerated",
+        "fault cases (failing task / rejecting consumer) are checked by the model-free oracle only; from the first failing task on the "
+        "segment is linear and stateless (map/starmap/zip): a failed task's future entering a stateful node is visible to that node on "
+        "Dask and never locally because errors surface at gather (accumulate instance recorded as " + SIG_ACC_POISON + ")",
     ]
     model_selfcheck(ctx)
     if ctx.thorough():
@@ -490,9 +691,12 @@ def run(ctx):
     cases = list(CORPUS)
     for mode, k in plan:
         cases += [gen_case(ctx.rng, mode) for _ in range(k)]
+    cases += FAULT_CORPUS
+    for mode, k in ([("await", 160), ("concurrent", 80)] if ctx.thorough() else [("await", 5), ("concurrent", 3)]):
+        cases += [gen_fault_case(ctx.rng, mode) for _ in range(k)]
     lines, spans = [], []
     for c in cases:
-        ml = model_lines(c)
+        ml = [] if is_fault(c) else model_lines(c)       # fault cases: model-free oracle only
         spans.append((len(lines), len(lines) + len(ml)))
         lines += ml
     answers = common.lean_driver("Dask", lines)
@@ -500,7 +704,7 @@ def run(ctx):
     results = run_cases(cases)
     ctx.coverage["cluster_wall_s"] = round(time.time() - t0, 2)
     for c, (a, b), (loc, dsk) in zip(cases, spans, results):
-        check_case(ctx, c, answers[a:b], loc, dsk)
+        check_case(ctx, c, answers[a:b] or None, loc, dsk)
     ctx.coverage["trusted_base"] = ctx.coverage["trusted_base"] + [
         "dask/distributed 2026.8.0 in-process cluster (scheduler, worker threads, inproc comms): runtime behaviour observed, not modelled",
     ]
@@ -508,14 +712,17 @@ def run(ctx):
         "corpus (8 hand-picked pipelines) + seeded generator: segments of 1-4 kinds over map/starmap/accumulate(+-start)/"
         "accumulate(returns_state)/zip/union/buffer/partition/sliding_window with catalogue functions, 1-10 integer inputs, "
         "delay tables of 0-8 ms inside the tasks, three producer modes (await / buffer before gather / concurrent emits); every "
-        "case is run locally and on the in-process cluster. Non-trivial: >=2 results at the sink and >=1 task submitted. "
+        "case is run locally and on the in-process cluster; fault cases (6 hand-picked + generated): a catalogue function fails on the "
+        "inputs selected by a modulus and/or the consumer behind gather rejects the results selected by a modulus, await and concurrent "
+        "producers, bounded waits. Non-trivial: >=2 results at the sink and >=1 task submitted (fault case: a failure followed by a "
+        "later successful element). "
         "Distinct = distinct case JSON.")
 
 
 def replay(ctx, data):
     ctx.audit()
     case = data["case"]
-    answers = common.lean_driver("Dask", model_lines(case))
+    answers = None if is_fault(case) else common.lean_driver("Dask", model_lines(case))
     (loc, dsk), = run_cases([case])
     check_case(ctx, case, answers, loc, dsk)
     ctx.coverage["rule"] = "replay of one recorded case"
